@@ -497,4 +497,4 @@ func TestReplay(t *testing.T) { vf.ReplayEnv(t) }
 
 // native fuzz targets (thorough tier): the fuzzer mutates the byte stream that rapid decodes into generator choices
 func FuzzCPCard(f *testing.F) { vf.FuzzNamed(f, "C14", "card") }
-func FuzzCPPB(f *testing.F) { vf.FuzzNamed(f, "C14", "pb") }
+func FuzzCPPB(f *testing.F)   { vf.FuzzNamed(f, "C14", "pb") }
